@@ -23,39 +23,29 @@
   (`_writable`, via the serialiser's own check `namesWritable`), the prefixes added are bound nowhere
   in scope of the element nor declared in its subtree (`_fresh_prefixes`), a second call is the
   identity (`_idem`).
+
+  Last section (`C10_repair_representable`, `C10_repair_roundtrip`, `_total`, `_fragment`): the clause
+  "serialisation succeeds and reparses deep-equal" as a corollary of the closed loop C01_roundtrip: the
+  call keeps a document inside the C01 domain `Representable` (of the grown tables), so the text the
+  repaired document serialises to parses back to exactly the repaired tree, which is deep_equal to the
+  tree before the call.
 -/
 import XotModel.Lemmas.FStack
 import XotModel.Lemmas.Scope10
+import XotModel.Lemmas.Scope10Sound
 import XotModel.Lemmas.TraceInv
 import XotModel.Lemmas.RepairDoc
 import XotModel.Lemmas.RepairFuel
 import XotModel.Lemmas.RepairKeepTop
 import XotModel.Lemmas.RepairValid
 import XotModel.Lemmas.SerResolveTop
+import XotModel.Lemmas.RepairRoundTripDoc
+import XotModel.Lemmas.RepairRoundTripElement
+import XotModel.Props.C01
 
 namespace XotModel.Props
 open XotModel
 
-/-- The namespace a prefix denotes in the scope `fs`: the `xml` prefix is reserved (XML Namespaces
-    §3: bound by definition to the XML namespace), any other prefix has its nearest declaration. -/
-def resolvePrefix (fs : Frames) (p : Nat) : Option Nat :=
-  if p == Env.xmlPrefix then some Env.xmlNamespace else lookupFrames fs p
-
-/-- The namespace an element name written with prefix `p` (`none` = unprefixed) denotes in the scope
-    `fs` (XML Namespaces §6.2: an unprefixed element takes the default namespace, if any). -/
-def resolveElementName (fs : Frames) : Option Nat → Option Nat
-  | some p => resolvePrefix fs p
-  | none => some ((lookupFrames fs Env.emptyPrefix).getD Env.noNamespace)
-
-/-- … an attribute name (an unprefixed attribute is in no namespace). -/
-def resolveAttributeName (fs : Frames) : Option Nat → Option Nat
-  | some p => resolvePrefix fs p
-  | none => some Env.noNamespace
-
-/-- Namespace constraint on the tree: the reserved prefix `xml` is not declared for another
-    namespace (XML Namespaces §3, "Reserved Prefixes and Namespace Names"). -/
-def XmlPrefixReserved (fs : Frames) : Prop :=
-  ∀ n, lookupFrames fs Env.xmlPrefix = some n → n = Env.xmlNamespace
 
 /-! ### The stack invariant -/
 
@@ -87,15 +77,11 @@ theorem C10_stack_pop (s : FStack) (decls : List (Nat × Nat)) :
 /-! ### Soundness of the chosen prefix -/
 
 /-- Under the reserved-prefix constraint, XML-Namespaces resolution of a prefix is its nearest
-    declaration. -/
+    declaration.  (`resolvePrefix`, `resolveElementName`, `resolveAttributeName`, `XmlPrefixReserved`:
+    Lemmas/Scope10Sound.lean.) -/
 theorem C10_resolve_lookup {fs : Frames} (hx : XmlPrefixReserved fs) {q ns : Nat}
-    (hl : lookupFrames fs q = some ns) : resolvePrefix fs q = some ns := by
-  unfold resolvePrefix
-  by_cases hq : (q == Env.xmlPrefix) = true
-  · have : q = Env.xmlPrefix := by simpa using hq
-    subst this
-    simp [hx ns hl]
-  · simp [hq, hl]
+    (hl : lookupFrames fs q = some ns) : resolvePrefix fs q = some ns :=
+  resolve_lookup hx hl
 
 /-- The prefix `element_prefix` answers resolves to the name's namespace whenever the check of the
     `StartTagOpen` arm passes (the name is not a no-namespace name while `has_default_namespace`).
@@ -103,43 +89,8 @@ theorem C10_resolve_lookup {fs : Frames} (hx : XmlPrefixReserved fs) {q ns : Nat
 theorem C10_sound_prefix (env : Env) (s : FStack) (fs : Frames) (name : Nat) (p : Option Nat)
     (hinv : StackInv s fs) (hx : XmlPrefixReserved fs) (h : s.elementPrefix env name = .ok p)
     (hcheck : ¬ (env.nsOfName name = Env.noNamespace ∧ s.hasDefaultNamespace = true)) :
-    resolveElementName fs p = some (env.nsOfName name) := by
-  obtain ⟨_, hflat⟩ := hinv.flat
-  unfold FStack.elementPrefix at h
-  by_cases hns : (env.nsOfName name == Env.noNamespace) = true
-  · simp only [hns, if_true] at h
-    cases h
-    have hz : env.nsOfName name = Env.noNamespace := by simpa using hns
-    have hnd : ¬ s.hasDefaultNamespace = true := fun hd => hcheck ⟨hz, hd⟩
-    rw [hasDefaultNamespace_iff hinv.flat] at hnd
-    simp only [resolveElementName, hz, Option.some.injEq]
-    cases hl : lookupFrames fs Env.emptyPrefix with
-    | none => rfl
-    | some n =>
-      by_cases hn : n = Env.noNamespace
-      · simp [hn]
-      · exact absurd ⟨n, hl, hn⟩ hnd
-  · simp only [hns] at h
-    by_cases hxml : (env.nsOfName name == Env.xmlNamespace) = true
-    · simp only [hxml, if_true] at h
-      cases h
-      have hz : env.nsOfName name = Env.xmlNamespace := by simpa using hxml
-      simp [resolveElementName, resolvePrefix, hz]
-    · simp only [hxml] at h
-      cases hp : elementPrefixByNamespace s.top (env.nsOfName name) with
-      | none => simp [hp] at h
-      | some q =>
-        have hl := (hflat q _).mp (elementPrefixByNamespace_mem hp)
-        simp only [hp] at h
-        by_cases hq : (q == Env.emptyPrefix) = true
-        · simp only [hq, if_true] at h
-          cases h
-          have : q = Env.emptyPrefix := by simpa using hq
-          subst this
-          simp [resolveElementName, hl]
-        · simp only [hq] at h
-          cases h
-          simpa [resolveElementName] using C10_resolve_lookup hx hl
+    resolveElementName fs p = some (env.nsOfName name) :=
+  sound_prefix env s fs name p hinv hx h hcheck
 
 /-- Element names, FULL strength (no guard): whenever `render_output` renders a `StartTagOpen`, the
     token is `<` + the qualified name built from a prefix that resolves — in the declarations of the
@@ -182,29 +133,8 @@ theorem C10_sound_refused (esc : Escapers) (env : Env) (pr : TokenParams) (s : F
     namespace, and an attribute is written unprefixed only when it is in no namespace. -/
 theorem C10_sound_attribute (env : Env) (s : FStack) (fs : Frames) (name : Nat) (p : Option Nat)
     (hinv : StackInv s fs) (hx : XmlPrefixReserved fs) (h : s.attributePrefix env name = .ok p) :
-    resolveAttributeName fs p = some (env.nsOfName name) ∧ p ≠ some Env.emptyPrefix := by
-  obtain ⟨_, hflat⟩ := hinv.flat
-  unfold FStack.attributePrefix at h
-  by_cases hns : (env.nsOfName name == Env.noNamespace) = true
-  · simp only [hns, if_true] at h
-    cases h
-    have hz : env.nsOfName name = Env.noNamespace := by simpa using hns
-    simp [resolveAttributeName, hz]
-  · simp only [hns] at h
-    by_cases hxml : (env.nsOfName name == Env.xmlNamespace) = true
-    · simp only [hxml, if_true] at h
-      cases h
-      have hz : env.nsOfName name = Env.xmlNamespace := by simpa using hxml
-      refine ⟨by simp [resolveAttributeName, resolvePrefix, hz], by decide⟩
-    · simp only [hxml] at h
-      cases hp : attributePrefixByNamespace s.top (env.nsOfName name) with
-      | none => simp [hp] at h
-      | some q =>
-        obtain ⟨hmem, hne⟩ := attributePrefixByNamespace_mem hp
-        have hl := (hflat q _).mp hmem
-        simp only [hp] at h
-        cases h
-        exact ⟨by simpa [resolveAttributeName] using C10_resolve_lookup hx hl, by simpa using hne⟩
+    resolveAttributeName fs p = some (env.nsOfName name) ∧ p ≠ some Env.emptyPrefix :=
+  sound_attribute env s fs name p hinv hx h
 
 /-! ### Errors: exactly when no usable prefix is in scope -/
 
@@ -931,5 +861,196 @@ example :
     (([[(1, 1), (5, 2)], [(1, 1)]], [0, 1], Output.startTagOpen 1) ∈
         stackTrace xmlEscapers env {} t (initStack t []) (genOutputs t [])) ∧
       resolveElementName (framesAlong t [0, 1] ++ [[(1, 1)]]) (some 5) = some 2 := by decide
+
+/-! ## "… serialisation succeeds and reparses deep-equal" (corollaries of C01_roundtrip)
+
+`Representable env t` (Model/SerTokens.lean, decidable) is the C01 domain; it does not ask that names be
+writable — that is what the call establishes.  One hypothesis on the tables is added:
+`Repair.nameTableOK env` (decidable; Lemmas/RepairRoundTrip.lean): the namespace of every registered name
+has an XML-expressible URI (XML Chars, non-empty unless it is the no-namespace id).  It is needed: a
+`Representable` tree may hold an element whose namespace URI is U+0001 (nothing declares it), and the
+call would add `xmlns:n0="&#x1;"`, which no XML parser accepts. -/
+
+section RepairRoundTrip
+open XotModel.Repair
+
+/-- The call on the root of a document keeps it inside the C01 domain of the tables it leaves: it only
+    adds namespace nodes whose prefix `n{k}` is an NCName other than `xmlns` and whose namespace is a
+    name's namespace other than none / XML, and `xmlns=""`; per element the prefixes stay pairwise
+    distinct, namespace nodes stay in front; nothing else changes (`xml:id` values, text, names).  Of the
+    tables only the prefix table grows, by appending new strings. -/
+theorem C10_repair_representable (env : Env) (t : Tree) (hr : Representable env t = true)
+    (htab : nameTableOK env = true) (env' : Env) (t' : Tree)
+    (h : createMissingPrefixes env t [] = .ok (env', t')) :
+    Representable env' t' = true ∧ nameTableOK env' = true ∧ env'.names = env.names ∧
+      env'.namespaces = env.namespaces ∧ ∃ e, env'.prefixes = env.prefixes ++ e := by
+  obtain ⟨e, h1, h2⟩ := createMissingPrefixes_representable env t hr htab env' t' h
+  exact ⟨h1, h2, e.names, e.namespaces, e.ext⟩
+
+/-- The same for a call on an ELEMENT anywhere in a representable document (the whole document stays
+    in the domain) and for a fragment. -/
+theorem C10_repair_representable_element (env : Env) (t : Tree) (hr : Representable env t = true)
+    (htab : nameTableOK env = true) (path : Path) (name : Nat) (ks : List Tree)
+    (hat : t.at? path = some (.node (.element name) ks)) (env' : Env) (t' : Tree)
+    (h : createMissingPrefixes env t path = .ok (env', t')) :
+    Representable env' t' = true ∧ nameTableOK env' = true :=
+  (createMissingPrefixes_element_representable env t hr htab path name ks hat env' t' h).2
+
+theorem C10_repair_representable_fragment (env : Env) (t : Tree) (hr : RepresentableFragment env t = true)
+    (htab : nameTableOK env = true) (env' : Env) (t' : Tree)
+    (h : createMissingPrefixes env t [] = .ok (env', t')) :
+    RepresentableFragment env' t' = true ∧ nameTableOK env' = true :=
+  (createMissingPrefixes_representableFragment env t hr htab env' t' h).2
+
+/-- **C10_repair_roundtrip**: after `create_missing_prefixes(document)` on a representable document
+    (names need NOT be writable before): every name is writable, serialisation succeeds, the text parses
+    back — into the same `Xot`, interning nothing — to exactly the repaired tree, and that tree is
+    `deep_equal` to the tree BEFORE the call (it differs from it in namespace nodes only). -/
+theorem C10_repair_roundtrip (env : Env) (t : Tree) (hr : Representable env t = true)
+    (htab : nameTableOK env = true) (env' : Env) (t' : Tree)
+    (h : createMissingPrefixes env t [] = .ok (env', t')) :
+    namesWritable env' t' [] = some true ∧
+    ∃ s p, toXmlString env' t' [] = .ok s ∧ parseString .document env' s = .ok p ∧ p.tree = t' ∧
+      p.env = env' ∧ deepEqual p.tree t' = true ∧ deepEqual p.tree t = true ∧ stripNs p.tree = stripNs t := by
+  obtain ⟨e, hr', _⟩ := createMissingPrefixes_representable env t hr htab env' t' h
+  have hfrag : RepresentableFragment env t = true := by
+    simp only [Representable, Bool.and_eq_true] at hr; exact hr.1
+  have hfrag' : RepresentableFragment env' t' = true := by
+    simp only [Representable, Bool.and_eq_true] at hr'; exact hr'.1
+  obtain ⟨h1, h2, h3⟩ := allNodes_of_representableFragment hfrag
+  obtain ⟨_, _, h3'⟩ := allNodes_of_representableFragment hfrag'
+  have hok := envOk_of_envOK h1
+  have hw := C10_repair_document_writable env hok t [] t rfl h2 (kids_unique_of_allNodes h3)
+    (kids_leaves_of_allNodes h3 h2) env' t' h
+  have hframe := (C10_repair_document_frame env hok t [] t rfl h2 (kids_unique_of_allNodes h3) env' t' h).1
+  obtain ⟨s, p, k1, k2, k3, k4, k5⟩ := C01_roundtrip_writable env' t' hr' hw
+  refine ⟨hw, s, p, k1, k2, k3, k4, k5, ?_, by rw [k3]; exact hframe⟩
+  rw [k3]
+  exact deepEqual_of_stripNs h3' (allNodes_ext e t h3) hframe
+
+/-- Without "for a call that returns Ok": on a representable document the call SUCCEEDS (it has its one
+    top-level element), and then all of the above. -/
+theorem C10_repair_roundtrip_total (env : Env) (t : Tree) (hr : Representable env t = true)
+    (htab : nameTableOK env = true) :
+    ∃ env' t' s p, createMissingPrefixes env t [] = .ok (env', t') ∧ Representable env' t' = true ∧
+      namesWritable env' t' [] = some true ∧ toXmlString env' t' [] = .ok s ∧
+      parseString .document env' s = .ok p ∧ p.tree = t' ∧ p.env = env' ∧ deepEqual p.tree t = true := by
+  have hr0 := hr
+  simp only [Representable, Bool.and_eq_true] at hr0
+  obtain ⟨_, h2, _⟩ := allNodes_of_representableFragment hr0.1
+  have hel : elementKidIndices t.kids ≠ [] := by
+    have hs := hr0.2
+    simp only [singleRoot, Bool.and_eq_true, beq_iff_eq] at hs
+    have hne : t.kids.filter (fun k => k.value.isElement) ≠ [] := by
+      intro hn; rw [hn] at hs; simp at hs
+    obtain ⟨k, hk⟩ := List.exists_mem_of_ne_nil _ hne
+    obtain ⟨hk1, hk2⟩ := List.mem_filter.mp hk
+    obtain ⟨i, hi⟩ := List.getElem?_of_mem hk1
+    intro hnil
+    have : i ∈ elementKidIndices t.kids := mem_elementKidIndices.mpr ⟨k, hi, hk2⟩
+    rw [hnil] at this; cases this
+  obtain ⟨env', t', h⟩ := (C10_repair_never_panics env t [] t rfl).2.2.2 (Or.inr ⟨h2, hel⟩)
+  obtain ⟨hw, s, p, k1, k2, k3, k4, _, k6, _⟩ := C10_repair_roundtrip env t hr htab env' t' h
+  exact ⟨env', t', s, p, h, (C10_repair_representable env t hr htab env' t' h).1, hw, k1, k2, k3, k4, k6⟩
+
+/-- Fragments (any number of top-level elements, top-level text): the same with `parse_fragment`. -/
+theorem C10_repair_roundtrip_fragment (env : Env) (t : Tree) (hr : RepresentableFragment env t = true)
+    (htab : nameTableOK env = true) (env' : Env) (t' : Tree)
+    (h : createMissingPrefixes env t [] = .ok (env', t')) :
+    namesWritable env' t' [] = some true ∧
+    ∃ s p, toXmlString env' t' [] = .ok s ∧ parseString .fragment env' s = .ok p ∧ p.tree = t' ∧
+      p.env = env' ∧ deepEqual p.tree t = true := by
+  obtain ⟨e, hfrag', _⟩ := createMissingPrefixes_representableFragment env t hr htab env' t' h
+  obtain ⟨h1, h2, h3⟩ := allNodes_of_representableFragment hr
+  obtain ⟨_, _, h3'⟩ := allNodes_of_representableFragment hfrag'
+  have hok := envOk_of_envOK h1
+  have hw := C10_repair_document_writable env hok t [] t rfl h2 (kids_unique_of_allNodes h3)
+    (kids_leaves_of_allNodes h3 h2) env' t' h
+  have hframe := (C10_repair_document_frame env hok t [] t rfl h2 (kids_unique_of_allNodes h3) env' t' h).1
+  obtain ⟨s, hs⟩ := (C01_serialises env' t' hfrag').mpr hw
+  obtain ⟨p, k2, k3, k4, _⟩ := C01_roundtrip_fragment_identical env' t' hfrag' s hs
+  refine ⟨hw, s, p, hs, k2, k3, k4, ?_⟩
+  rw [k3]
+  exact deepEqual_of_stripNs h3' (allNodes_ext e t h3) hframe
+
+/-- A PARENTLESS element (a clone, a freshly built subtree) whose one-element document is representable:
+    after `create_missing_prefixes(element)` the element serialises ON ITS OWN (`to_string(element)`) and
+    the text parses back to the document holding exactly the repaired element, `deep_equal` to the
+    document holding the element before the call.  (For an element INSIDE a document see
+    `C10_repair_representable_element`: the document stays in the domain and the element's subtree is
+    writable, `C10_repair_writable`; `to_string(inner element)`, which also writes the declarations in
+    scope, is not covered by the round-trip theorem.) -/
+theorem C10_repair_roundtrip_element (env : Env) (name : Nat) (ks : List Tree)
+    (hr : Representable env (.node .document [.node (.element name) ks]) = true)
+    (htab : nameTableOK env = true) (env' : Env) (T' : Tree)
+    (h : createMissingPrefixes env (.node (.element name) ks) [] = .ok (env', T')) :
+    Representable env' (.node .document [T']) = true ∧ namesWritable env' T' [] = some true ∧
+    ∃ s p, toXmlString env' T' [] = .ok s ∧ parseString .document env' s = .ok p ∧
+      p.tree = .node .document [T'] ∧ p.env = env' ∧
+      deepEqual p.tree (.node .document [.node (.element name) ks]) = true := by
+  obtain ⟨e, k, hr'⟩ := createMissingPrefixes_root_element_keeps env name ks hr htab env' T' h
+  have hr0 := hr
+  simp only [Representable, Bool.and_eq_true] at hr0
+  obtain ⟨he, _, hok⟩ := allNodes_of_representableFragment hr0.1
+  have hokT : (Tree.node (.element name) ks).allNodes (nodeOK env) = true := allNodes_kid hok (by simp)
+  have hu := uniqueBelow_of_allNodes _ hokT
+  have hEnvOk := envOk_of_envOK he
+  have hw := C10_repair_writable env hEnvOk _ [] name ks rfl hu env' T' h
+  have hframe := (C10_repair_frame env hEnvOk _ [] name ks rfl hu env' T' h).1
+  have hel' : T'.value.isElement = true := by rw [k.value]; rfl
+  obtain ⟨name', ks', rfl⟩ := isElement_node hel'
+  have hwd : namesWritable env' (.node .document [.node (.element name') ks']) [] = some true := by
+    rw [namesWritable_wrap]; exact hw
+  obtain ⟨s, p, k1, k2, k3, k4, _⟩ := roundtrip_element_writable env' _
+    (by simp only [RepresentableElement, Bool.and_eq_true]; exact ⟨rfl, hr'⟩) hwd
+  refine ⟨hr', hw, s, p, k1, k2, k3, k4, ?_⟩
+  rw [k3]
+  have hr1 := representable_ext e hr
+  simp only [Representable, Bool.and_eq_true] at hr' hr1
+  exact deepEqual_of_stripNs (allNodes_of_representableFragment hr'.1).2.2
+    (allNodes_of_representableFragment hr1.1).2.2 (stripNs_wrap rfl rfl hframe)
+
+/-- Non-vacuity, closed (tables `c01Env` of Props/C01): `<!--h--><r k="v"><c/><t/></r>` with `r` in
+    `urn:a`, `c` in `urn:b`, nothing declared: representable, NOT writable; the call registers `n0`, `n1`
+    and the result serialises to `<!--h--><n0:r xmlns:n0="urn:a" xmlns:n1="urn:b" k="v"><n1:c/><t/></n0:r>`. -/
+def c10RtDoc : Tree :=
+  .node .document [.node (.comment ['h']) [],
+    .node (.element 2) [.node (.attribute 4 ['v']) [], .node (.element 3) [], .node (.element 5) []]]
+
+example : Representable c01Env c10RtDoc = true ∧ nameTableOK c01Env = true ∧
+    namesWritable c01Env c10RtDoc [] = some false ∧
+    (match createMissingPrefixes c01Env c10RtDoc [] with
+      | .ok (env', t') => some (env'.prefixes, toXmlString env' t' [])
+      | _ => none) =
+    some ([[], ['x', 'm', 'l'], ['p'], ['n', '0'], ['n', '1']],
+      .ok "<!--h--><n0:r xmlns:n0=\"urn:a\" xmlns:n1=\"urn:b\" k=\"v\"><n1:c/><t/></n0:r>".toList) := by
+  decide
+
+example : ∃ env' t' s p, createMissingPrefixes c01Env c10RtDoc [] = .ok (env', t') ∧
+    Representable env' t' = true ∧ namesWritable env' t' [] = some true ∧ toXmlString env' t' [] = .ok s ∧
+    parseString .document env' s = .ok p ∧ p.tree = t' ∧ p.env = env' ∧ deepEqual p.tree c10RtDoc = true :=
+  C10_repair_roundtrip_total c01Env c10RtDoc (by decide) (by decide)
+
+example : ∃ env' T' s p, createMissingPrefixes c01Env (.node (.element 2) [.node (.element 3) []]) [] = .ok (env', T') ∧
+    toXmlString env' T' [] = .ok s ∧ parseString .document env' s = .ok p ∧
+    deepEqual p.tree (.node .document [.node (.element 2) [.node (.element 3) []]]) = true := by
+  obtain ⟨env', T', h⟩ := (C10_repair_never_panics c01Env (.node (.element 2) [.node (.element 3) []]) [] _ rfl).2.2.2
+    (Or.inl rfl)
+  obtain ⟨_, _, s, p, k1, k2, _, _, k5⟩ := C10_repair_roundtrip_element c01Env 2 _ (by decide) (by decide) env' T' h
+  exact ⟨env', T', s, p, h, k1, k2, k5⟩
+
+/-- `nameTableOK` is needed (closed): with a name in the namespace `U+0001` the document is representable,
+    the call succeeds, and the repaired document is no longer representable (`xmlns:n0="&#x1;"`). -/
+example :
+    let env : Env := { c01Env with namespaces := c01Env.namespaces ++ [[Char.ofNat 1]],
+                                   names := c01Env.names ++ [(['e'], 4)] }
+    let t : Tree := .node .document [.node (.element 6) []]
+    Representable env t = true ∧ nameTableOK env = false ∧
+    (match createMissingPrefixes env t [] with
+      | .ok (env', t') => some (Representable env' t')
+      | _ => none) = some false := by
+  decide
+
+end RepairRoundTrip
 
 end XotModel.Props
